@@ -2,6 +2,7 @@ package main
 
 import (
 	"go/ast"
+	"go/token"
 	"strings"
 )
 
@@ -53,6 +54,7 @@ func init() {
 		ex.setBool("c14HelperShape", okHelper, true, "helper: fixed timeout detached from the caller's context, unparsable replies count as failures, the result is handed over unless the call has already returned")
 		ex.setBool("c14CollectShape", okCollect, true, "collection loop: failures are skipped, a reply that is not the last is skipped unless its rcode is NOERROR or NXDOMAIN, the context ends the call")
 		c14ConstructionFacts(ex, rel)
+		c14WrapperFacts(ex)
 		qc := ex.fn(rel, "Forward", "QuickConfigureExec")
 		if qc != nil {
 			qs := strings.Join(stmtStrings(ex, qc.Body), " ")
@@ -143,4 +145,72 @@ func c14ConstructionFacts(ex *factExtractor, rel string) {
 		"NewForward: one pass over args.Upstreams; every entry gets its own wrapper and its own upstream.NewUpstream(c.Addr, uOpt) call (the only one), appended to the list in configuration order and registered under its own tag; nothing else writes the list, a wrapper's upstream or the tag map")
 	ex.setBool("c14EntryOptions", okOpts, true,
 		"NewForward: the upstream of an entry is created from that entry's own addr, dial_addr, socks5, so_mark, bind_to_device, idle_timeout, pipeline, http3, bootstrap(+version), insecure_skip_verify; the plugin-wide socks5 / so_mark / bind_to_device / bootstrap(+version) only fill fields the entry leaves empty")
+}
+
+// c14WrapperFacts: what stands between a helper of Forward.exchange and the upstream of its position
+// (upstreamWrapper.ExchangeContext in utils.go).
+func c14WrapperFacts(ex *factExtractor) {
+	fd := ex.fn("plugin/executable/forward/utils.go", "upstreamWrapper", "ExchangeContext")
+	if fd == nil || fd.Body == nil {
+		return
+	}
+	const call = "r, err := uw.u.ExchangeContext(ctx, m)"
+	top := fd.Body.List
+	at := -1
+	for i, st := range top {
+		if ex.str(st) == call {
+			at = i
+		}
+	}
+	ok := at >= 0 && len(top) > 0 && ex.str(top[len(top)-1]) == "return r, err"
+	nCalls, nReturns := 0, 0
+	for _, c := range ex.calls(fd.Body) {
+		if c == "uw.u.ExchangeContext" {
+			nCalls++
+		}
+	}
+	// nothing in the body can wait, repeat, leave early or start something: no select, channel operation, loop, go,
+	// defer, goto / labelled jump, lock; the only return is the last statement
+	ast.Inspect(fd.Body, func(n ast.Node) bool {
+		switch x := n.(type) {
+		case *ast.SelectStmt, *ast.SendStmt, *ast.ForStmt, *ast.RangeStmt, *ast.GoStmt, *ast.DeferStmt, *ast.BranchStmt, *ast.LabeledStmt, *ast.FuncLit, *ast.SwitchStmt, *ast.TypeSwitchStmt:
+			ok = false
+		case *ast.UnaryExpr:
+			if x.Op == token.ARROW {
+				ok = false
+			}
+		case *ast.ReturnStmt:
+			nReturns++
+		case *ast.CallExpr:
+			s := ex.str(x.Fun)
+			if strings.HasSuffix(s, "Lock") || strings.HasSuffix(s, ".Wait") || strings.HasSuffix(s, ".Sleep") || strings.HasSuffix(s, ".Acquire") {
+				ok = false
+			}
+		}
+		return true
+	})
+	// before the call: plain statements only (no condition under which the call is skipped); after it r and err are not written
+	for i, st := range top {
+		if i < at {
+			switch st.(type) {
+			case *ast.ExprStmt, *ast.AssignStmt, *ast.IncDecStmt, *ast.DeclStmt:
+			default:
+				ok = false
+			}
+		}
+		if i > at {
+			ast.Inspect(st, func(n ast.Node) bool {
+				if as, isAs := n.(*ast.AssignStmt); isAs {
+					for _, l := range as.Lhs {
+						if s := ex.str(l); s == "r" || s == "err" || s == "*r" {
+							ok = false
+						}
+					}
+				}
+				return true
+			})
+		}
+	}
+	ex.setBool("c14WrapperTransparent", ok && nCalls == 1 && nReturns == 1, true,
+		"upstreamWrapper.ExchangeContext: one unconditional call of the wrapped upstream's ExchangeContext(ctx, m) whose results are returned as they are; around it only counters (no select, channel operation, loop, lock, early return: nothing that can hold an exchange back or keep state between exchanges)")
 }
